@@ -126,4 +126,27 @@ theorem sound_with_classes_and_escaping (cfg : Config) (hp : PlainPrintCI cfg) (
   obtain ⟨P, hP, hm⟩ := this
   exact ⟨P, hP, hm.mpr ⟨t, ht, hne, Props.C03.generalises_self cfg t⟩⟩
 
+/-- **C01 for the model, every anchor setting, all inputs** for every subset of the class options, with or without
+capturing groups and `-e`, with either, both or no anchor (with none, whichever expression the self-check keeps): every
+non-empty test case is matched in full by the pattern the regex parser builds from the returned text -/
+theorem sound_any_anchor (cfg : Config) (hp : PlainPrintNA cfg) (hci : cfg.ci = false) (env : Env)
+    (ws : List Str) (st : Stages) (h : regExpFrom cfg env ws = .ok st) (hseg : ∀ w ∈ ws, Grexv.SegOK env w)
+    (t : Str) (ht : t ∈ ws) (hne : t ≠ []) :
+    ∃ P, Spec.parse (fmtRegExp cfg st.finalAst) = some (⟨false, false⟩, P) ∧ Spec.fullMatch false P t = true := by
+  have hsc : ∀ c ∈ t, Scalar c := by
+    obtain ⟨h1, h2⟩ := hseg t ht
+    intro c hc
+    rw [← h2] at hc
+    obtain ⟨p, hp, hcp⟩ := List.mem_flatten.mp hc
+    exact (h1 p hp).2 c hcp
+  have hst : storedCases cfg env ws = ws := by simp [storedCases, hci]
+  have := classes_bounds_any_anchor cfg hp env ws st h (by rw [hst]; exact hseg) (by rw [hst]; exact ⟨t, ht, hne⟩) t hsc
+  rw [hst, hci] at this
+  obtain ⟨P, hP, _, hm⟩ := this
+  refine ⟨P, hP, hm t ht hne ?_⟩
+  have : ∀ u : Str, u.map (convAtom cfg) = u.map (Props.C03.docAtom cfg) :=
+    fun u => List.map_congr_left (fun c _ => Props.C03.convAtom_documented cfg c)
+  rw [this]
+  exact Props.C03.generalises_self cfg t
+
 end Grexv.Props.C01
